@@ -44,6 +44,8 @@ var targets = []target{
 	{dir: ".", name: "unaryCriteriaToRange", lean: "unaryCriteriaToRange", params: map[string]string{"c": "GUnary"}, ret: "Option GRange", optional: true},
 	{dir: "query", recv: "UnaryCriteria", name: "compare", lean: "UnaryCriteria_compare", params: map[string]string{"c": "GUnary", "doc": "Doc"}, ret: "Option Bool", mayPanic: true},
 	{dir: "query", recv: "UnaryCriteria", name: "eq", lean: "UnaryCriteria_eq", params: map[string]string{"c": "GUnary", "doc": "Doc"}, ret: "Bool"},
+	{dir: "query", recv: "BinaryCriteria", name: "Satisfy", lean: "BinaryCriteria_Satisfy", params: map[string]string{"c": "GBinary", "doc": ""}, ret: "Bool"},
+	{dir: "query", recv: "NotCriteria", name: "Satisfy", lean: "NotCriteria_Satisfy", params: map[string]string{"c": "GNot", "doc": ""}, ret: "Bool"},
 	{dir: "query", recv: "UnaryCriteria", name: "exist", lean: "UnaryCriteria_exist", params: map[string]string{"c": "GUnary", "doc": "Doc"}, ret: "Bool"},
 	{dir: ".", recv: "skipLimitNode", name: "Callback", lean: "skipLimitNode_Callback", params: map[string]string{"nd": "GSkipLimit", "doc": ""}, ret: "Outcome", outcome: true, state: "nd"},
 }
@@ -53,11 +55,15 @@ var structs = map[string][][2]string{
 	"GSkipLimit": {{"skipped", "Int"}, {"consumed", "Int"}, {"skip", "Int"}, {"limit", "Int"}},
 	// query.UnaryCriteria: the operator as the NAME of its constant, the operand as the model's Operand (a literal or a field reference)
 	"GUnary": {{"OpType", "String"}, {"Field", "Bytes"}, {"Value", "Operand"}},
+	// query.BinaryCriteria / NotCriteria: a sub-criterion is represented by what its Satisfy answers on the document at hand
+	"GBinary": {{"OpType", "String"}, {"C1", "Bool"}, {"C2", "Bool"}},
+	"GNot":    {{"C", "Bool"}},
 }
 
 // named constants of the query package (an `int` enumeration in Go): translated to their names
 var namedConsts = map[string]bool{"query.ExistsOp": true, "query.EqOp": true, "query.NeqOp": true, "query.GtOp": true, "query.GtEqOp": true,
-	"query.LtOp": true, "query.LtEqOp": true, "query.LikeOp": true, "query.InOp": true, "query.ContainsOp": true, "query.FunctionOp": true}
+	"query.LtOp": true, "query.LtEqOp": true, "query.LikeOp": true, "query.InOp": true, "query.ContainsOp": true, "query.FunctionOp": true,
+	"query.LogicalAnd": true, "query.LogicalOr": true}
 
 // calls with a model counterpart, by the Lean type of their argument
 var knownCalls = map[string]string{"isFieldReference": "Operand.isRef", "getFieldOrValue": "deref", "doc.Get": "Doc.get doc", "doc.Has": "Doc.has doc"}
@@ -111,6 +117,9 @@ func (x *tr) typeOf(e ast.Expr) string {
 	case *ast.ParenExpr:
 		return x.typeOf(v.X)
 	case *ast.CallExpr:
+		if sub, ok := subSatisfy(v); ok {
+			return x.typeOf(sub)
+		}
 		if callee(v) == "internal.Compare" {
 			return "Int"
 		}
@@ -130,6 +139,16 @@ func (x *tr) typeOf(e ast.Expr) string {
 		return "Bool"
 	}
 	return ""
+}
+
+// subSatisfy recognises `<expr>.Satisfy(doc)` and returns <expr>.
+func subSatisfy(c *ast.CallExpr) (ast.Expr, bool) {
+	if f, ok := c.Fun.(*ast.SelectorExpr); ok && f.Sel.Name == "Satisfy" && len(c.Args) == 1 {
+		if _, isSel := f.X.(*ast.SelectorExpr); isSel {
+			return f.X, true
+		}
+	}
+	return nil, false
 }
 
 func callee(c *ast.CallExpr) string {
@@ -229,6 +248,9 @@ func (x *tr) expr(e ast.Expr) string {
 		}
 		return x.fail("binary %s", v.Op)
 	case *ast.CallExpr:
+		if sub, ok := subSatisfy(v); ok && x.typeOf(sub) == "Bool" {
+			return x.expr(sub) // c.C1.Satisfy(doc): the sub-criterion's answer
+		}
 		if callee(v) == "internal.Compare" && len(v.Args) == 2 {
 			return "(goCmp " + x.expr(v.Args[0]) + " " + x.expr(v.Args[1]) + ")"
 		}
